@@ -82,7 +82,7 @@ Proof. exact precond_max_characterised. Qed.
    (when that side is > 0) and translation = -centroid * scale, for every non-empty set *)
 Theorem C20_preconditioner_extents_correct : forall size cdim (pts : list (list R)),
   pts <> [] -> (0 < size)%nat -> (cdim <= size)%nat -> Forall (fun p => length p = size) pts -> bounded pts ->
-  let pc := precond_compute_lowest ROps size cdim pts in
+  let pc := precond_compute ROps size cdim pts in
   (forall i, (i < size)%nat ->
      is_min (coords pts i) (pc_min pc).[i] /\ is_max (coords pts i) (pc_max pc).[i] /\
      (pc_mean pc).[i] = Rsum (coords pts i) / INR (length pts)) /\
